@@ -39,6 +39,7 @@ enum In {
 struct Inbound {
     q: VecDeque<In>,
     waker: Option<Waker>, // registered when the stream had nothing to yield, like a socket would
+    over: bool,           // the stream has yielded its end (or an error): it stays ended
 }
 
 impl Inbound {
@@ -74,14 +75,23 @@ impl Stream for ScriptedStream {
     type Item = Result<SerialMessage, NetError>;
     fn poll_next(self: Pin<&mut Self>, cx: &mut Context<'_>) -> Poll<Option<Self::Item>> {
         let mut inb = self.inb.lock().unwrap();
+        if inb.over {
+            return Poll::Ready(None); // like a fused / closed socket: the end is reported again
+        }
         match inb.q.pop_front() {
             None => {
                 inb.waker = Some(cx.waker().clone());
                 Poll::Pending
             }
             Some(In::Msg(b)) => Poll::Ready(Some(Ok(SerialMessage::new(b, self.addr)))),
-            Some(In::Err) => Poll::Ready(Some(Err(NetError::from(io::Error::new(io::ErrorKind::ConnectionReset, "scripted reset"))))),
-            Some(In::Eof) => Poll::Ready(None),
+            Some(In::Err) => {
+                inb.over = true;
+                Poll::Ready(Some(Err(NetError::from(io::Error::new(io::ErrorKind::ConnectionReset, "scripted reset")))))
+            }
+            Some(In::Eof) => {
+                inb.over = true;
+                Poll::Ready(None)
+            }
         }
     }
 }
@@ -356,6 +366,18 @@ pub async fn replay_one(ln: usize, c: &Value, trace: &mut dyn io::Write, out: &m
                 "cancel" => run.cancel(r, true),
                 "tick" => run.advance(TICK_MS, true).await,
                 "close" => run.close(step["how"].as_str().unwrap(), true),
+                // a response and the end of the stream readable in the same poll
+                "deliverclose" => {
+                    match run.wid[r - 1] {
+                        Some(w) => run.deliver(w, false),
+                        None => {
+                            adapter.push(format!("deliver to request {r} which has no wire id"));
+                            let u = run.unused_id(&mut rng);
+                            run.deliver(u, false)
+                        }
+                    };
+                    run.close(step["how"].as_str().unwrap(), true)
+                }
                 _ => panic!("unknown op {op}"),
             };
             observed.push(project(&obs));
@@ -372,7 +394,7 @@ pub async fn replay_one(ln: usize, c: &Value, trace: &mut dyn io::Write, out: &m
         for e in &run.events {
             writeln!(trace, "{e}").unwrap();
         }
-        let nontrivial = log.iter().filter(|s| matches!(s["op"].as_str(), Some("deliver" | "unknown" | "garbage"))).count() >= 1
+        let nontrivial = log.iter().filter(|s| matches!(s["op"].as_str(), Some("deliver" | "deliverclose" | "unknown" | "garbage"))).count() >= 1
             && log.iter().filter(|s| s["op"] == "send").count() >= 2;
         writeln!(
             out,
@@ -465,6 +487,19 @@ pub async fn record(seed: u64, n_cases: usize, max_reqs: usize, steps: usize, tr
         }
         if rng.random_bool(0.7) && !run.ended() {
             let how = if rng.random_bool(0.5) { "eof" } else { "err" };
+            // half of the time the last answers and the end of the stream are readable together
+            if rng.random_bool(0.5) {
+                let live: Vec<usize> = (1..=sent).filter(|r| run.is_live(*r)).collect();
+                for _ in 0..rng.random_range(1..=3usize) {
+                    if live.is_empty() {
+                        let u = run.unused_id(&mut rng);
+                        run.deliver(u, false);
+                    } else if let Some(w) = run.wid[live[rng.random_range(0..live.len())] - 1] {
+                        run.deliver(w, false);
+                        delivered += 1;
+                    }
+                }
+            }
             run.close(how, true);
             closed = true;
         }
